@@ -59,7 +59,7 @@ def _mc(tier):
 
 
 def _validate(v, pid, fam, trace, label):
-    vb = vlib.validate_batch("Trace_SupTree", "Trace_SupTree.cfg", trace, label)
+    vb = vlib.validate_batch("Trace_SupTree", "Trace_SupTree.cfg", trace, label, max_divergences=12)
     for viol in vb["violations"]:
         meta = json.loads(viol["run"][0]).get("meta", {})
         ev = viol.get("lenient_event") or viol.get("strict_event") or "{}"
